@@ -578,7 +578,8 @@ def model_check(ctx, values, lat):
                 ("mc_design_4x4_1", dict(MaxRows=4, MaxCols=4, MaxBlocks=1, MaxCuts=1, CheckDesign=True),
                  ["PropagationThm", "DesignThm"])]
     else:
-        jobs = [("mc_propagation_6x6_2", dict(MaxRows=6, MaxCols=6, MaxBlocks=2), ["PropagationThm", "ReadingsAgree"]),
+        jobs = [("mc_readings_5x5_2", dict(MaxRows=5, MaxCols=5, MaxBlocks=2), ["PropagationThm", "ReadingsAgree"]),
+                ("mc_propagation_6x6_2", dict(MaxRows=6, MaxCols=6, MaxBlocks=2), ["PropagationThm"]),
                 ("mc_propagation_5x5_3", dict(MaxRows=5, MaxCols=5, MaxBlocks=3), ["PropagationThm"]),
                 ("mc_design_4x4_2", dict(MaxRows=4, MaxCols=4, MaxBlocks=2, MaxCuts=2, CheckDesign=True),
                  ["PropagationThm", "DesignThm"]),
